@@ -761,6 +761,16 @@ class H2Connection:
             "Send headers on stream ID %d", stream_id
         )
 
+        # Only clients open streams by sending HEADERS: the streams a server
+        # initiates are opened by push_stream.
+        if (not self.config.client_side and
+                stream_id not in self.streams and
+                self._stream_id_is_outbound(stream_id) and
+                stream_id > self.highest_outbound_stream_id):
+            raise ProtocolError(
+                "Servers cannot open stream %d by sending HEADERS" % stream_id
+            )
+
         # Check we can open the stream. A stream we promised only starts to
         # count against the peer's limit now that it leaves the reserved state.
         if (stream_id not in self.streams or
